@@ -10,8 +10,13 @@ ok = bad = 0
 # SELFTEST_SRC: a snapshot of the repository to mutate (default: the working tree of /repo); SELFTEST_QV: the qv binary
 SRC = os.environ.get("SELFTEST_SRC", "/repo").rstrip("/")
 QV = os.environ.get("SELFTEST_QV", "/verif/bin/qv")
-for m in M:
+# SELFTEST_SHARD=i/n: only every n-th edit, starting at i (several shards can run side by side)
+shard = os.environ.get("SELFTEST_SHARD", "0/1").split("/")
+si, sn = int(shard[0]), int(shard[1])
+for mi, m in enumerate(M):
     name, f, old, new, prop = m[:5]
+    if mi % sn != si:
+        continue
     if args and not any(a in name for a in args):
         continue
     if old is None or new is None:
